@@ -849,9 +849,11 @@ func (e *CoreExtension) testSameAs(value interface{}, args ...interface{}) (bool
 	if len(args) == 0 {
 		return false, errors.New("same_as test requires an argument")
 	}
-	// Comparing interface values panics when the dynamic types are not comparable
+	// Comparing interface values panics when the dynamic values are not comparable. The TYPE is
+	// not enough: a struct or array with an interface inside is a comparable type, but == panics
+	// when that interface holds a slice, map or func. reflect.Value.Comparable looks inside.
 	if value != nil && args[0] != nil &&
-		(!reflect.TypeOf(value).Comparable() || !reflect.TypeOf(args[0]).Comparable()) {
+		(!reflect.ValueOf(value).Comparable() || !reflect.ValueOf(args[0]).Comparable()) {
 		return false, nil
 	}
 	return value == args[0], nil
